@@ -651,12 +651,12 @@ fn lint_json_for(text: &Rendered, lang: Lang, k: usize, user: &BTreeSet<usize>, 
     Value::Null
 }
 
-fn request_of(w: &World, op: &Op, client: &Client, udict: &BTreeSet<usize>, fdict: &BTreeSet<usize>) -> (&'static str, Value, bool) {
+fn request_of(w: &World, op: &Op, client: &Client, udict: &BTreeSet<usize>, fdict: &BTreeSet<usize>, version: i64) -> (&'static str, Value, bool) {
     match op {
-        Op::Open(u, l, t) => ("textDocument/didOpen", json!({"textDocument": {"uri": w.uri(*u), "languageId": l.lsp_id(), "version": 1, "text": render(*t, *l).text}}), false),
+        Op::Open(u, l, t) => ("textDocument/didOpen", json!({"textDocument": {"uri": w.uri(*u), "languageId": l.lsp_id(), "version": version, "text": render(*t, *l).text}}), false),
         Op::Change(u, t) => {
             let lang = client.open.get(u).map(|x| x.0).unwrap_or(Lang::P);
-            ("textDocument/didChange", json!({"textDocument": {"uri": w.uri(*u), "version": 2}, "contentChanges": [{"text": render(*t, lang).text}]}), false)
+            ("textDocument/didChange", json!({"textDocument": {"uri": w.uri(*u), "version": version}, "contentChanges": [{"text": render(*t, lang).text}]}), false)
         }
         Op::Save(u) => ("textDocument/didSave", json!({"textDocument": {"uri": w.uri(*u)}}), false),
         Op::Close(u) => ("textDocument/didClose", json!({"textDocument": {"uri": w.uri(*u)}}), false),
@@ -773,7 +773,8 @@ fn execute(w: &World, c: &Case, lenient: bool, executed: &mut Vec<K>) -> Outcome
                 }
                 let ud = World::read_words(&format!("{}/cfg/user.txt", w.base));
                 let fd = op.url().and_then(|u| w.fdict_path(u)).map(|p| World::read_words(&p)).unwrap_or_default();
-                let (method, params, is_req) = request_of(w, &op, &cl, &ud, &fd);
+                // document versions increase with every message, as an editor's do
+                let (method, params, is_req) = request_of(w, &op, &cl, &ud, &fd, time as i64);
                 let fut = s.start(method, params, is_req);
                 let saw = op.url().map(|u| cl.disk.get(&u).cloned());
                 hs.push(Handler { op, fut: Some(fut), pending: None, admitted: time, done: None, saw_disk: saw.into_iter().collect() });
